@@ -65,6 +65,17 @@ def merge_raised(dumps):
     return dict(sorted(out.items()))
 
 
+def _strict(o):
+    """evidence files are strict JSON: non-finite floats (a rank label of +-inf in a sample) are written as strings"""
+    if isinstance(o, float) and (o != o or o in (float("inf"), float("-inf"))):
+        return repr(o)
+    if isinstance(o, dict):
+        return {k: _strict(v) for k, v in o.items()}
+    if isinstance(o, (list, tuple)):
+        return [_strict(v) for v in o]
+    return o
+
+
 def main():
     a = parse()
     check = a.check.upper()
@@ -245,7 +256,7 @@ def write_evidence(mod, check, a, merged, extra, new, kf_lines, problems, wall, 
     os.makedirs(os.path.join(VERIF, "evidence"), exist_ok=True)
     tmp = os.path.join(VERIF, "evidence", f".{check}.tmp")
     with open(tmp, "w") as f:
-        json.dump(ev, f, indent=1, default=repr)
+        json.dump(_strict(ev), f, indent=1, default=repr, allow_nan=False)
     os.replace(tmp, os.path.join(VERIF, "evidence", f"{check}.json"))
 
 
